@@ -25,7 +25,7 @@ RULE = ('histories of Index calls (assignment, lookup, get, deletion, pop, popit
         'runs; distinct_nontrivial = distinct (operation, outcome class, key class) cells + distinct schedules with a '
         'preemption inside an operation')
 DISTINCT = ('cells', 'schedules')
-REQUIRED = ('histories_with_a_key_and_its_stored_form_as_bytes', 'calls_judged', 'file_backed_values', 'reopen_events', 'pickle_events', 'fanout_indexes', 'django_indexes',
+REQUIRED = ('long_indexes', 'histories_with_a_key_and_its_stored_form_as_bytes', 'calls_judged', 'file_backed_values', 'reopen_events', 'pickle_events', 'fanout_indexes', 'django_indexes',
             'presence_schedules', 'presence_lookups', 'atomicity_schedules', 'free_runs', 'exceptions_matched',
             'lookups_overlapping_replacement', 'replacements_run_in_front_of_a_file_open',
             'updates_from_failing_iterables', 'blocks_left_by_KeyboardInterrupt', 'blocks_left_by_GeneratorExit',
@@ -671,6 +671,63 @@ def free_run(dc, sc, res, rng, seed, topo, label):
                 return
 
 
+def long_index(dc, sc, res, rng, size, how, label):
+    """An Index with more items than any page the library reads rows in (pages of 100): everything that walks the whole
+    mapping against collections.OrderedDict."""
+    d = sc.new()
+    owner = None
+    try:
+        if how == 'fanout':
+            owner = dc.FanoutCache(d, shards=2)
+            I = owner.index('long')
+        else:
+            I = dc.Index(d)
+        pairs = [(('k', i) if i % 5 == 0 else 'key-%04d' % ((i * 7919) % 10007), i) for i in range(size)]
+        I.update(pairs)
+        R = collections.OrderedDict(pairs)
+        wit = {'label': label, 'size': size, 'how': how}
+
+        def compare(what):
+            res.count('evaluations')
+            ok = (list(I) == list(R) and list(reversed(I)) == list(reversed(R)) and len(I) == len(R)
+                  and list(I.keys()) == list(R.keys()) and list(I.values()) == list(R.values())
+                  and list(I.items()) == list(R.items()) and I == R and I == dict(R))
+            if not ok:
+                res.violation('an Index of %d items after %s: iteration yields %d keys (reversed %d, values %d, items %d), len %d'
+                              % (len(R), what, len(list(I)), len(list(reversed(I))), len(list(I.values())),
+                                 len(list(I.items())), len(I)), wit)
+            return ok
+        if not compare('update'):
+            return
+        for last in (True, False, True):
+            a, b = outcome(lambda: I.popitem(last=last)), outcome(lambda: R.popitem(last=last))
+            if a != b:
+                res.violation('popitem(last=%s) on %d items -> %r, OrderedDict -> %r' % (last, size, a, b), wit)
+                return
+        k = list(R)[len(R) - 2]
+        a, b = outcome(lambda: I.pop(k)), outcome(lambda: R.pop(k))
+        if a != b or not compare('pops near both ends'):
+            return
+        I[('k', 0)] = 'again'
+        R[('k', 0)] = 'again'
+        if not compare('assignment to the oldest key'):
+            return
+        if how != 'fanout':
+            twin = pickle.loads(pickle.dumps(I))
+            if list(twin.items()) != list(R.items()):
+                res.violation('an unpickled Index of %d items yields %d items' % (len(R), len(list(twin.items()))), wit)
+                return
+        I.clear()
+        R.clear()
+        if not compare('clear'):
+            return
+        res.count('long_indexes')
+    finally:
+        if owner is not None:
+            owner.close()
+        sc.drop(d)
+
+
 def run_shard(tier, seed, shard, nshards, res):
     dc = common.use_repo()
     probe.install()
@@ -680,6 +737,12 @@ def run_shard(tier, seed, shard, nshards, res):
             history(dc, sc, res, rng, 'c12 history seed=%d shard=%d i=%d' % (seed, shard, i))
             if res.counters.get('violations_raw', 0) > 8:
                 return
+        sizes = [100, 101, 102, 103, 199, 200, 201, 202, 250, 301, 302, 5]
+        for j in range(1 if tier == 'quick' else 6):
+            rng = common.rng_for(seed, 'c12l', shard, j)
+            size = sizes[(shard + j * 5 + seed) % len(sizes)]
+            how = 'fanout' if (shard + j) % 4 == 3 else 'directory'
+            long_index(dc, sc, res, rng, size, how, 'c12 long index seed=%d shard=%d size=%d %s' % (seed, shard, size, how))
         probe.reset()
         for i in range(60 if tier == 'quick' else 1000):
             rng = common.rng_for(seed, 'c12p', shard, i)
